@@ -149,7 +149,7 @@ impl Which {
             Which::C15 => "G-full grammars decorated with #[cfg(..)] (nested not/all/any, 1-2 attributes per item) on alternatives, extra gated alternatives, gated nonterminals and gated extern conversions x a feature set over {f1, x-y, abc, z9} given with --features; oracle: the model evaluates the predicates and (1) LALRPOP's verdict and (2) the generated .rs after the two header lines are identical to those for the grammar printed with the inactive items deleted, (3) compiled parsers accept the language and return the values of the deleted grammar. Non-trivial = grammar with >= 1 deleted and >= 1 kept gated item; distinct (grammar text, feature set[, config, input])",
             Which::C25 => "metamorphic pairs (G, G with nonterminals, macro names, macro parameters, bindings, the grammar parameter and its lifetime renamed injectively into an adversarial pool: __0 __sym0 __lookahead __tokens __Symbol __StateMachine __action0 Token alloc core v e ...); oracle: same LALRPOP verdict, same compile result, identical answers (value / error / expected list / token pulls / action log) on every input. Non-trivial = pair with >= 1 new name starting with `__`; distinct (pair, config, start, input)",
             Which::C19 => "G-full grammars (annotated + inferred types: tuples, Vec/Option from repeats and macros, payload tokens, usize / Copy newtype / Clone-only newtype locations, both lexers) x both code generators: every unit LALRPOP accepts must compile (cargo build of the batch, rustc diagnostics attributed to modules through macro expansion chains). Non-trivial = accepted unit whose grammar has an inferred nonterminal type that is a tuple / Vec / Option, or a non-usize location type; distinct (grammar text, config)",
-            Which::C08 => "all grammars of the suite x all inputs incl. long repetitions; oracle: no panic, no driver crash, no step-budget overrun (64 (n+2) |P| + 256 steps counted in actions and token pulls), pulls <= n+1. Non-trivial = input rejected, or grammar has a nullable nonterminal",
+            Which::C08 => "(ii) all grammars of the suite x all inputs incl. long repetitions; oracle: no panic, no driver crash, no step-budget overrun (64 (n+2) |P| + 256 steps counted in actions and token pulls), pulls <= n+1; (i) lexer level: lexer specs (1-5 terminals incl. nullable regexes, skip rules, `_`) x strings driving the real MatcherBuilder on the pattern table extracted from LALRPOP's output; oracle: deterministic progress invariant (no repeated empty token, <= len+1 tokens). Non-trivial = input rejected, or the grammar has a nullable nonterminal / a pattern that can match the empty string",
         }
     }
 }
@@ -1652,6 +1652,7 @@ pub fn run(ctx: Ctx, replay: Option<PathBuf>, which: Which) -> i32 {
     if let Some(p) = replay {
         ck.strict = true;
         match super::load_replay(&p) {
+            Ok(v) if which == Which::C08 && v.get("spec").is_none() => super::c08l::replay_case(&mut ck, &v),
             Ok(v) => replay_case(&ctx, which, &mut ck, &v),
             Err(c) => return c,
         }
@@ -1659,7 +1660,14 @@ pub fn run(ctx: Ctx, replay: Option<PathBuf>, which: Which) -> i32 {
     }
     {
         let ctx2 = ctx.clone();
-        ck.replay_listed(|ck, v| replay_case(&ctx2, which, ck, v));
+        ck.replay_listed(|ck, v| {
+            if which == Which::C08 && v.get("spec").is_none() {
+                // lexer-level repro (part (i) of C08)
+                super::c08l::replay_case(ck, v)
+            } else {
+                replay_case(&ctx2, which, ck, v)
+            }
+        });
     }
     let (n_grammars, scale) = match which {
         Which::C08 => ctx.tier.pick((60, 2), (1200, 3)),
@@ -1683,6 +1691,11 @@ pub fn run(ctx: Ctx, replay: Option<PathBuf>, which: Which) -> i32 {
         if !ck.infra_errors.is_empty() {
             break;
         }
+    }
+    if which == Which::C08 {
+        // part (i): the generated lexer always makes progress (in process, on
+        // the pattern tables extracted from LALRPOP's output)
+        super::c08l::lexer_level(&mut ck, ctx.tier.pick(1500, 30_000));
     }
     // shrink and report new signatures
     let budget_sigs = 3;
